@@ -1,7 +1,7 @@
 (* C12 with filters, lexer side: the lexer on the canonical text str() gives for a query with filter selectors.
    (The lexer lemmas of Proofs/Requery.v and Proofs/Reparse.v hold for any filter bookkeeping; here: the filter state.) *)
 From JP Require Import Base.Json Model.Regex Model.Tokens Model.Lex Model.Ast Model.Parse Model.Serialize Model.Api.
-From JP Require Import Spec.StringLit Spec.NormPath Spec.Types Spec.Printable Proofs.StringProofs Proofs.LexString Proofs.LexInv Proofs.Requery Proofs.Reparse Proofs.ParseComplete.
+From JP Require Import Spec.StringLit Spec.NormPath Spec.Types Spec.Printable Proofs.StringProofs Proofs.LexString Proofs.LexInv Proofs.Requery Proofs.Reparse Proofs.NumMatch Proofs.ParseComplete.
 
 (* --- regular expressions of the filter state ----------------------------------------------------------------------------------- *)
 Definition fname_ok (f : str) : Prop :=
@@ -24,39 +24,11 @@ Proof.
   unfold RE_FUNCTION_NAME. subst s. rewrite rm_seq_S, rm_class_S. fold cls_fn_first. rewrite H. reflexivity.
 Qed.
 
-(* a star over a class fails when its continuation fails wherever the star can stop *)
-Lemma star_class_fail cls : forall ds F n rest (k : list N -> Z -> option Z),
-  match rest with c :: _ => in_ranges c cls = false | [] => True end ->
-  (forall j n', (j <= length ds)%nat -> k (skipn j ds ++ rest) n' = None) ->
-  rm F (RStar (RClass false cls)) (ds ++ rest) n k = None.
-Proof.
-  induction ds as [|d ds IH]; intros F n rest k Hr Hk; (destruct F as [|f]; [reflexivity|]); rewrite rm_star_S.
-  - cbn [app]. assert (E : rm f (RClass false cls) rest n (fun s' n' => if n' =? n then None else rm f (RStar (RClass false cls)) s' n' k) = None).
-    { destruct f as [|f']; [reflexivity|]. rewrite rm_class_S. destruct rest as [|c r]; [reflexivity|]. rewrite Hr. reflexivity. }
-    rewrite E. apply (Hk 0%nat n). cbn [length]. lia.
-  - cbn [app]. assert (E : rm f (RClass false cls) (d :: ds ++ rest) n (fun s' n' => if n' =? n then None else rm f (RStar (RClass false cls)) s' n' k) = None).
-    { destruct f as [|f']; [reflexivity|]. rewrite rm_class_S. destruct (xorb false (in_ranges d cls)); [|reflexivity].
-      assert (En : (n + 1 =? n) = false) by lia. rewrite En. apply IH; [exact Hr|]. intros j n' Hj. apply (Hk (S j) n'). cbn [length]. lia. }
-    rewrite E. apply (Hk 0%nat n). lia.
-Qed.
-
 Definition intfol (c : N) : Prop := c = 32%N \/ c = 41%N \/ c = 93%N \/ c = 44%N.
-
-Lemma digits_suffix_head (body : list N) c r j : forallb isd body = true -> (j <= length body)%nat ->
-  exists x tl, skipn j body ++ c :: r = x :: tl /\ (isd x = true \/ x = c).
-Proof.
-  revert j. induction body as [|b body IH]; intros j Hd Hj.
-  - cbn [length] in Hj. assert (j = 0%nat) by lia. subst. cbn. eauto.
-  - cbn [forallb] in Hd. apply andb_true_iff in Hd as [H1 H2]. destruct j as [|j]; [cbn; eauto|]. cbn [skipn]. apply IH; [exact H2 | cbn [length] in Hj; lia].
-Qed.
 
 Lemma intfol_facts c : intfol c -> isd c = false /\ in_ranges c [(101, 101); (69, 69)]%N = false /\ in_ranges c [(46, 46)]%N = false
   /\ in_ranges c cls_digit = false /\ in_ranges c [(45, 45)]%N = false /\ in_ranges c [(58, 58)]%N = false.
 Proof. intros [-> | [-> | [-> | ->]]]; repeat split; reflexivity. Qed.
-Lemma digit_facts d : isd d = true -> in_ranges d cls_digit = true /\ in_ranges d [(101, 101); (69, 69)]%N = false /\ in_ranges d [(46, 46)]%N = false
-  /\ in_ranges d [(45, 45)]%N = false /\ in_ranges d [(58, 58)]%N = false.
-Proof. unfold isd, cls_digit. cbn [in_ranges]. intros H. repeat split; lia. Qed.
-
 (* the INT pattern on a printed integer followed by a blank, a closing bracket or a comma *)
 Lemma int_match sign body c r : (sign = [] \/ sign = [45%N]) -> body <> [] -> forallb isd body = true -> intfol c ->
   re_match RE_INT ((sign ++ body) ++ c :: r) = Some (zlen (sign ++ body)).
@@ -82,17 +54,6 @@ Proof.
 Qed.
 
 (* digits+ followed by something that does not begin where the digits may stop: no match *)
-Lemma digits_then_fail body c r F n (k : list N -> Z -> option Z) : forallb isd body = true -> in_ranges c cls_digit = false ->
-  (forall x tl n', (isd x = true \/ x = c) -> k (x :: tl) n' = None) ->
-  rm F (RSeq (RClass false cls_digit) (RStar (RClass false cls_digit))) (body ++ c :: r) n k = None.
-Proof.
-  intros Hd Hc Hk. destruct F as [|f]; [reflexivity|]. rewrite rm_seq_S. destruct f as [|f]; [reflexivity|]. rewrite rm_class_S.
-  destruct body as [|d ds]; cbn [app]; [rewrite Hc; reflexivity|].
-  destruct (xorb false (in_ranges d cls_digit)); [|reflexivity].
-  cbn [forallb] in Hd. apply andb_true_iff in Hd as [_ Hd2].
-  apply star_class_fail; [exact Hc|]. intros j n' Hj. destruct (digits_suffix_head ds c r j Hd2 Hj) as (x & tl & -> & Hx). apply Hk. exact Hx.
-Qed.
-
 Lemma float_nomatch sign body c r : (sign = [] \/ sign = [45%N]) -> body <> [] -> forallb isd body = true -> intfol c ->
   re_match RE_FLOAT ((sign ++ body) ++ c :: r) = None.
 Proof.
@@ -368,6 +329,29 @@ Proof.
     rewrite (accept_mismatch l2 110%N [117; 108; 108]%N c0 _ E' F8).
     unfold l_accept_match. rewrite E. rewrite (float_nomatch sign body x r Hs Hne Hd Hx). rewrite (int_match sign body x r Hs Hne Hd Hx). reflexivity.
 Qed.
+
+Lemma intfol_numfol c : intfol c -> numfol c.
+Proof. intros [-> | [-> | [-> | ->]]]; repeat split; reflexivity. Qed.
+
+(* a FLOAT literal of any of the token pattern's shapes *)
+Lemma sf_float_form fd ffd fcs w x r p bs T : float_form w -> intfol x ->
+  exists q, lex_step Lex.SFilter (GX fd ffd fcs (w ++ x :: r) [] p p bs T)
+  = LNext Lex.SFilter (GX fd ffd fcs (x :: r) [] q q bs (tk T_FLOAT w p :: T)).
+Proof.
+  intros Hw Hx. destruct (float_form_head w Hw) as (c0 & w' & Ew & Hc0). pose proof (float_form_match w x r Hw (intfol_numfol x Hx)) as MF.
+  assert (Hfacts : in_ranges c0 ws_ranges = false /\ sf_special c0 = false /\ in_ranges c0 cls_fn_first = false /\ 38%N <> c0 /\ 124%N <> c0 /\ 116%N <> c0 /\ 102%N <> c0 /\ 110%N <> c0).
+  { destruct Hc0 as [-> | Hc0]; [repeat split; try reflexivity; discriminate|]. unfold isd in Hc0. unfold sf_special, cls_fn_first. cbn [in_ranges ws_ranges].
+    repeat split; lia. }
+  destruct Hfacts as (F1 & F2 & F3 & F4 & F5 & F6 & F7 & F8).
+  apply (sf_word fd ffd fcs w c0 w' (x :: r) p bs T T_FLOAT Ew F1 F2).
+  - intros l2 E. rewrite Ew in E. cbn [app] in E. apply (fn_nomatch_l l2 c0 _ E F3).
+  - intros l2 E. pose proof E as E'. rewrite Ew in E'. cbn [app] in E'.
+    rewrite (accept_mismatch l2 38%N [38%N] c0 _ E' F4). rewrite (accept_mismatch l2 124%N [124%N] c0 _ E' F5). unfold s_true, s_false, s_null.
+    rewrite (accept_mismatch l2 116%N [114; 117; 101]%N c0 _ E' F6). rewrite (accept_mismatch l2 102%N [97; 108; 115; 101]%N c0 _ E' F7).
+    rewrite (accept_mismatch l2 110%N [117; 108; 108]%N c0 _ E' F8).
+    unfold l_accept_match. rewrite E. rewrite MF. reflexivity.
+Qed.
+
 
 Lemma sf_fname fd ffd fcs c cs r p bs T : in_ranges c cls_fn_first = true -> forallb (fun y => in_ranges y cls_fn_char) cs = true ->
   exists q q', lex_step Lex.SFilter (GX fd ffd fcs ((c :: cs) ++ 40%N :: r) [] p p bs T)
@@ -944,9 +928,21 @@ Proof.
   - destruct b; (split; [apply hd_cons; try discriminate; reflexivity|]).
     + apply (lexes_word s_true T_TRUE); [exact sf_true|]. intros i. apply ct_lit. left. split; reflexivity.
     + apply (lexes_word s_false T_FALSE); [exact sf_false|]. intros i. apply ct_lit. right. left. split; reflexivity.
-  - destruct n as [z| | |]; try discriminate. cbn [lx_lit] in Hl. unfold int_rt in Hl. apply andb_true_iff in Hl as [Hz Hf]. apply negb_true_iff in Hz.
+  - assert (Hflt : forall n0, n0 = n -> flt_rt n0 = true -> hd_str (repr_float n0) /\ lexesP (repr_float n0) (CT cfg (ELit (JNum n0)))).
+    { intros n0 _ Hf. unfold flt_rt in Hf. apply andb_true_iff in Hf as [Hf Hx]. apply andb_true_iff in Hf as [Hform Hz]. apply negb_true_iff in Hz.
+      destruct (py_float (repr_float n0)) as [x|] eqn:Ex; [|discriminate]. assert (Exn : x = n0).
+      { destruct x, n0; cbn [num_same] in Hx; try discriminate; [apply Z.eqb_eq in Hx; subst; reflexivity | apply andb_true_iff in Hx as [A B]; apply Z.eqb_eq in A; apply Z.eqb_eq in B; subst; reflexivity | reflexivity | apply Bool.eqb_prop in Hx; subst; reflexivity]. }
+      subst x. pose proof (float_formb_sound _ Hform) as Hff. destruct (float_form_head _ Hff) as (c0 & w' & Ew & Hc0). split.
+      - rewrite Ew. assert (Hc4 : in_ranges c0 ws_ranges = false /\ c0 <> 46%N /\ c0 <> 91%N /\ c0 <> 61%N)
+          by (destruct Hc0 as [-> | Hc0]; [repeat split; try reflexivity; discriminate | unfold isd in Hc0; cbn [in_ranges ws_ranges]; repeat split; lia]).
+        destruct Hc4 as (A & B & C & D0). apply hd_cons; assumption.
+      - apply (lexes_word (repr_float n0) T_FLOAT).
+        + intros fd ffd fcs x0 r p bs T Hx0. apply sf_float_form; assumption.
+        + intros i. apply ct_lit. right. right. right. right. right. split; [reflexivity|]. split; [exact Hz|]. exists n0. split; [exact Ex | reflexivity]. }
+    destruct n as [z| m e | | s0]; cbn [lx_lit] in Hl; cbn [lit_str]; try (apply (Hflt _ eq_refl Hl)).
+    unfold int_rt in Hl. apply andb_true_iff in Hl as [Hz Hf]. apply negb_true_iff in Hz.
     destruct (py_float (repr_int z)) as [x|] eqn:Ex; [|discriminate]. destruct (py_int_of_float x) as [z'|] eqn:Ez; [|discriminate]. apply Z.eqb_eq in Hf. subst z'.
-    cbn [lit_str repr_float]. split; [apply repr_int_head|].
+    cbn [repr_float]. split; [apply repr_int_head|].
     destruct (repr_int_ok z) as (_ & _ & (sign & body & E & Hs & Hb & Hd) & _).
     apply (lexes_word (repr_int z) T_INT).
     + intros fd ffd fcs x0 r p bs T Hx. rewrite E. apply sf_int; assumption.
